@@ -394,6 +394,17 @@ func runC11(rowsFile string, b *hc.Builder) {
 					} else if back.Elem().Int() != want {
 						violation("C11/enum/decode-symbol", fmt.Sprintf("symbol %q decoded to ordinal %d, expected %d", s, back.Elem().Int(), want), cs)
 					}
+					// ... and into a variable that already holds another declared symbol (a reused struct, a repeated key):
+					// what is decoded replaces what was there, an unknown symbol never leaves "another symbol" behind
+					for prev := 1; prev <= len(row.Symbols); prev++ {
+						reused := reflect.New(typ)
+						reused.Elem().SetInt(int64(prev))
+						r2, _ := restlicodec.NewJsonReader([]byte(fmt.Sprintf("%q", s)))
+						_, pan := safely(func() error { return reused.Interface().(restlicodec.Unmarshaler).UnmarshalRestLi(r2) })
+						if pan == "" && reused.Elem().Int() != want {
+							violation("C11/enum/decode-symbol-into-reused-variable", fmt.Sprintf("symbol %q decoded into a variable holding %s gives ordinal %d, expected %d", s, row.Symbols[prev-1], reused.Elem().Int(), want), cs)
+						}
+					}
 				}
 			}
 		case "fixed":
